@@ -96,10 +96,14 @@ Print Assumptions C15_same_checksum_not_written.
 
 (** The file changes only on success with a new checksum, and then it holds a
     normal form whose re-parse reproduces it with the recorded count and
-    checksum. *)
+    checksum.  (Middle case: the replacement of the pending file fails after a
+    complete body was parsed; the file is left alone and the list keeps its
+    checksum, although the code reports an update with rule count 0.) *)
 Theorem C15_written_is_normal_form : forall crc l o fs,
   let '(u, fs') := update_one crc l o fs in
   (u_updated u = false /\ fs' = fs) \/
+  (exists d, o = ORenameFail d /\ fs' = fs /\ u_updated u = true /\ u_err u = true /\
+             u_count u = 0 /\ u_sum u = f_sum l) \/
   (exists d re st, o = OBody d re /\ parse crc d re = (st, None) /\ p_sum st <> f_sum l /\
      u_updated u = true /\ u_err u = false /\ u_count u = p_count st /\ u_sum u = p_sum st /\
      fs' = fset (f_id l) (output st) fs /\
